@@ -52,7 +52,7 @@ META = {
                     "guards only compare exactly computed scalars (cannot flip between back ends)",
                     "programs on which kind inference cannot succeed are outside the subset (discarded, counted)"],
     "probes": ["step_failed", "step_switched", "step_raised", "compiled", "ret_compared", "structure_user_type",
-               "two_user_types"],
+               "two_user_types", "twin_phase", "earlier_generation_from_same_objects"],
  },
  "C12": {
     "level": "exploration",
@@ -75,7 +75,7 @@ META = {
                     "scripts in which a Raise stops the program are excluded (the property is about runs "
                     "followed by shutdown)"],
     "probes": ["step_failed", "step_switched", "ut_temp_live_across_exit", "ut_move", "compiled", "shutdown_ok",
-               "structure_user_type", "two_user_types"],
+               "structure_user_type", "two_user_types", "twin_phase", "earlier_generation_from_same_objects"],
  },
 }
 
@@ -526,6 +526,20 @@ def run_fortran_engine(ctx, prop):
     code = DAGCode(phases, sc.initial)
     freg, twins = make_registry(sc)
     has_y = sorted(set().union(*[yield_components(ph.ops) for ph in sc.phases]))
+    with tape.span("earlier_generation"):
+        if tape.chance(0.2, "earlier_generation"):
+            # history: a separate generator object was given these very description objects before
+            # (the description must come out of it as it went in)
+            import contextlib as _cl
+            import io as _io
+            import dagrt.codegen.fortran as _f
+            try:
+                with _cl.redirect_stdout(_io.StringIO()):
+                    _f.CodeGenerator("m0", function_registry=freg, user_type_map=user_type_map(sc),
+                                     module_preamble=module_preamble(sc))(code)
+            except Exception:
+                pass
+            ctx.count("probe:earlier_generation_from_same_objects")
     # ---- reference first (discards ill-defined programs before any compilation)
     ref = interp_reference(ctx, code, twins, sc, n_runs, has_y)
     if c12 and any(r["outcome"] == "raised" for r in ref):
